@@ -1255,4 +1255,14 @@ def make(seed, kind="c", name=None, header=True, cyc=None, **kw):
     else:
         p = g.h_file(name or "test.h", header=header, **kw)
     p.meta["planted"] = g.n_planted
+    if g.x.random() < 0.12:
+        # one comment of the file holds a character from outside ASCII or one str.splitlines() takes for a line end
+        cs = [(l, j) for l in p.lines if l.kind != "hdr" for j, (t, c) in enumerate(l.segs) if c.startswith("comment") and len(t) > 6]
+        if cs:
+            l, j = g.x.choice(cs)
+            t, c = l.segs[j]
+            k = g.x.randint(3, len(t) - 3)
+            if t[k - 1] not in "*/\\\n" and t[k] not in "*/\n":
+                l.segs[j] = (t[:k] + g.x.choice(["\x0c", "\x0b", "\x85", "\u2028", "\u00e9", "\u20ac", "\x1c"]) + t[k:], c)
+                p.meta["feats"] = sorted(set(p.meta.get("feats", [])) | {"comment_special_char"})
     return p
